@@ -5,8 +5,8 @@
    call, connection_lost); `run cf init tr` is the state after the event list `tr`, for EVERY event
    list (any number of connections, exchanges, reads, any interleaving the atomicity of data_received
    allows).  s_log lists what callers were given, each item with the ghost tag of the exchange that
-   held the connection when those bytes arrived (TIdle: nobody).  `faithful` is the code as it is,
-   `repaired` a variant whose _get also refuses a pooled connection with leftovers.  The decision
+   held the connection when those bytes arrived (TIdle: nobody).  `faithful` is the code as it is
+   (`repaired` additionally checks the parser's state in _get; no longer needed).  The decision
    functions (should_close, _release, _get, connection_key ...) come from Generated/ClientConnGen.v. *)
 From AV Require Import Lib.Base Generated.ClientConnGen Model.ClientConn
   Proofs.ClientConnBase Proofs.ClientConnStruct Proofs.ClientConnTagsDef Proofs.ClientConnTagsB
@@ -15,35 +15,39 @@ Open Scope N_scope.
 
 (* ---- no mixing ------------------------------------------------------------------------------ *)
 
-(* Full statement `forall tr s, run faithful init tr = Some s -> no_mix s`: REFUTED by the faithful model.
-   W1 — a complete response that arrives while the connection idles in the pool is parsed by the old
-   parser into the protocol's queue; BaseConnector._get checks only is_connected() and age; the next
-   request on that connection is answered with it (and every later response shifts by one).  Replayed
-   on the implementation: corpus/C06/idle_unsolicited.json (known finding C06-stale-response-from-pool). *)
-Theorem C06_no_mix_refuted_idle : exists s,
+(* History: until /repo d13503d the full statement was REFUTED by two witnesses (a response parsed while its
+   connection sat in the pool was delivered to the next request).  With BaseConnector._get asking
+   ResponseHandler.is_reusable() the same traces now end differently; they stay here as regression examples.
+   W1 - an unsolicited response arrives while the connection idles in the pool: the connection is refused and
+   closed by _get, the request runs on a fresh one and every delivery is well tagged (although the quietness
+   hypothesis of C06_no_mix_partial is violated).  corpus/C06/fixed-idle_unsolicited.json. *)
+Example C06_idle_unsolicited_fixed : exists s,
   run faithful init tr_idle_unsolicited = Some s /\
-  exists d, In d (s_log s) /\ d_tag d <> TFlight (d_e d).
+  s_idle_parsed s = true /\ s_nconn s = 2 /\ c_phase (s_conn s 0) = PClosed /\
+  length (s_log s) = 3%nat /\ forallb well_taggedb (s_log s) = true.
 Proof. exact w_idle_unsolicited. Qed.
-Print Assumptions C06_no_mix_refuted_idle.
+Print Assumptions C06_idle_unsolicited_fixed.
 
-(* W2 — same defect, other timing: the surplus response follows the end of the body in the same read.
-   The caller already holds the response, so the end-of-body callback releases the connection to the
-   pool in the middle of that data_received call; the rest of the read is queued on a pooled
-   connection.  Replayed: corpus/C06/same_read_surplus.json (same known finding). *)
-Theorem C06_no_mix_refuted_same_read : exists s,
+(* W2 - the surplus response follows the end of the body in the same read (the connection is released to the
+   pool in the middle of that data_received call).  corpus/C06/fixed-same_read_surplus.json. *)
+Example C06_same_read_surplus_fixed : exists s,
   run faithful init tr_same_read_surplus = Some s /\
-  exists d, In d (s_log s) /\ d_tag d <> TFlight (d_e d).
+  s_idle_parsed s = true /\ s_nconn s = 2 /\ c_phase (s_conn s 0) = PClosed /\
+  length (s_log s) = 2%nat /\ forallb well_taggedb (s_log s) = true.
 Proof. exact w_same_read_surplus. Qed.
-Print Assumptions C06_no_mix_refuted_same_read.
+Print Assumptions C06_same_read_surplus_fixed.
 
-(* What holds instead, for ALL traces: if no token was ever handled on a connection that no exchange
-   was holding (s_idle_parsed = false: the peer sends nothing while the connection idles in the pool and
-   nothing after the end of a response in the read that completes it), then everything every caller
-   was given — heads and body bytes — arrived while that caller's own exchange held the connection.
-   Surplus that is parsed *before* the release (same read as the head, earlier reads), early bytes on a
-   fresh connection, truncated bodies, peer close at any point, garbage, cancellations and upgrades are
-   all inside the quantifier.  Missing for the full statement: a check of protocol.should_close (and
-   of the parser's line buffer) in BaseConnector._get — see C06_repaired_refuses_stale. *)
+(* For ALL traces: if no token was ever handled on a connection that no exchange was holding
+   (s_idle_parsed = false: the peer sends nothing while the connection idles in the pool and nothing after the
+   end of a response in the read that completes it), then everything every caller was given - heads and body
+   bytes - arrived while that caller's own exchange held the connection.  Surplus that is parsed *before* the
+   release, early bytes on a fresh connection, truncated bodies, peer close at any point, garbage,
+   cancellations and upgrades are all inside the quantifier.
+   PARTIAL: the hypothesis is no longer needed for the repaired code (the examples above and the trace
+   validation show the stale connections being refused), but the invariant behind this proof (pooled =>
+   nothing queued) is exactly what the hypothesis buys; the unconditional statement needs the weaker invariant
+   "pooled and still passing is_reusable() => nothing queued" threaded through the token steps of an idle
+   connection, which is not done.  What IS proved unconditionally about the repair is C06_reuse_only_clean. *)
 Theorem C06_no_mix_partial : forall cf tr s,
   run cf init tr = Some s -> s_idle_parsed s = false ->
   forall d, In d (s_log s) -> d_tag d = TFlight (d_e d).
@@ -59,13 +63,6 @@ Example C06_no_mix_partial_example : exists s,
   c_phase (s_conn s 0) = PIdle /\ c_phase (s_conn s 1) = PClosed.
 Proof. exact w_good. Qed.
 Print Assumptions C06_no_mix_partial_example.
-
-(* the repaired _get closes the stale connection of W1 and opens a new one *)
-Example C06_repaired_refuses_stale : exists s,
-  run repaired init (tr_exchange1 ++ [ESegBegin 0; ETok (KHead 2 0 false false); ESegEnd; EConnect 2 rqA]) = Some s /\
-  s_nconn s = 2 /\ c_phase (s_conn s 0) = PClosed.
-Proof. exact w_idle_unsolicited_repaired. Qed.
-Print Assumptions C06_repaired_refuses_stale.
 
 (* ---- which connections are reused ----------------------------------------------------------- *)
 
@@ -124,15 +121,31 @@ Theorem C06_pooled_clean_partial : forall cf tr s c,
 Proof. exact quiet_pool_clean. Qed.
 Print Assumptions C06_pooled_clean_partial.
 
-(* The property's own clause "a connection that received bytes beyond the end of a response is not
-   reused" (ghost c_dirty, defined without reference to the implementation's flags): REFUTED even in a
-   quiet run.  W3 — an incomplete line after a complete response stays in the parser's line buffer,
-   which should_close does not look at; the connection is pooled and handed out again (the bytes are
-   dropped with the old parser, not delivered).  Replayed: corpus/C06/partial_surplus_reused.json
-   (known finding C06-partial-surplus-reused).  A general `dirty => never reused` theorem for quiet
-   runs without parser leftovers is not proved (it needs an invariant tying c_prog to the queue). *)
-Theorem C06_not_reused_if_dirty_refuted : exists s,
+(* Full, for ALL traces (new with d13503d + 2b34708): at the moment a pooled connection is handed out again
+   the protocol's should_close is false: no close announced, last payload complete, not upgraded, no exception,
+   response queue empty, raw tail empty, no incomplete line / head block in the parser's buffer - whatever the
+   peer sent while the connection was pooled or after the end of the last response. *)
+Theorem C06_reuse_only_clean : forall cf tr s e r s',
+  run cf init tr = Some s -> step cf s (EConnect e r) = Some s' ->
+  x_conn (s_x s' e) < s_nconn s ->
+  let cn := s_conn s (x_conn (s_x s' e)) in
+  c_sc cn = false /\ pay_open s cn = false /\ c_upg cn = false /\ c_exc cn = 0 /\
+  c_buf cn = [] /\ c_htail cn = [] /\ (c_parser cn && c_ptail cn) = false.
+Proof. exact reuse_only_clean. Qed.
+Print Assumptions C06_reuse_only_clean.
+
+(* History: until 2b34708 "bytes beyond the end of a response => not reused" was REFUTED (W3: an incomplete
+   line after a complete response stayed in the parser's line buffer, invisible to should_close).  Now the
+   connection is closed at release (W3) or refused by _get when the bytes arrive while it is pooled (W4).
+   corpus/C06/fixed-partial_surplus_reused.json.  The ghost-level statement "dirty by the property's own
+   list => never reused" is still not proved in general; its implementation-level form is C06_reuse_only_clean. *)
+Example C06_partial_surplus_fixed : exists s,
   run faithful init tr_partial_surplus = Some s /\
-  c_phase (s_conn s 0) = PFlight 2 /\ c_dirty (s_conn s 0) = true /\ s_idle_parsed s = false.
+  s_nconn s = 2 /\ c_phase (s_conn s 0) = PClosed /\ c_dirty (s_conn s 0) = true /\ s_idle_parsed s = false.
 Proof. exact w_partial_surplus. Qed.
-Print Assumptions C06_not_reused_if_dirty_refuted.
+Print Assumptions C06_partial_surplus_fixed.
+
+Example C06_partial_idle_fixed : exists s,
+  run faithful init tr_partial_idle = Some s /\ s_nconn s = 2 /\ c_phase (s_conn s 0) = PClosed.
+Proof. exact w_partial_idle. Qed.
+Print Assumptions C06_partial_idle_fixed.
